@@ -93,7 +93,12 @@ func (v *Vue) evalAttributes(ctx VueContext, n *html.Node) (map[string]any, erro
 		// Check if there's a static attribute with the same name
 		staticIdx := -1
 		for i, a := range newAttrs {
-			if a.Key == attrName {
+			name := a.Key
+			if a.Namespace != "" {
+				// (xlink:href in <svg> is href in the xlink namespace: not the same attribute as href)
+				name = a.Namespace + ":" + a.Key
+			}
+			if name == attrName {
 				staticIdx = i
 				break
 			}
